@@ -184,20 +184,22 @@ Proof.
   unfold head_tok. destruct (is_leaf_ty s ty), (is_leaf_ty s ty2); cbn [tnorm]; intros H; inversion H; auto.
 Qed.
 
-Theorem attr_step_undo pos attr value doc d' inv d'' :
-  V doc -> V d' ->
+Theorem attr_step_undo_on pos attr value doc d' inv e d'' :
+  V doc ->
   (forall n, node_at s (S (nsize doc)) doc pos = Ok (Some n) -> NodeNormal n) ->
   apply s (SAttr pos attr value) doc = ROk d' ->
   invert_step s (SAttr pos attr value) doc = Ok inv ->
-  apply s inv d' = ROk d'' ->
+  V e -> DT e = DT d' ->
+  apply s inv e = ROk d'' ->
   DT d'' = DT doc.
 Proof.
-  intros Hd Hd' Hn Ha Hi Hb.
+  intros Hd Hn Ha Hi Hd' HeT Hb.
   destruct (node_step_splice s (SAttr pos attr value) pos _ _ Hd eq_refl Ha) as (ty & a & m & cs & a1 & m1 & En & Eu & Hnth & E').
   destruct (Hn _ En) as (Hnd & Hfix & Hsr).
   cbn [invert_step] in Hi. rewrite En in Hi. cbn [bind node_attrs] in Hi.
   destruct (lookup_attr a attr) as [v0|] eqn:Ek; [|discriminate]. inversion Hi; subst inv. clear Hi.
   destruct (node_step_splice s (SAttr pos attr v0) pos _ _ Hd' eq_refl Hb) as (ty2 & a2 & m2 & cs2 & a3 & m3 & En2 & Eu2 & Hnth2 & E'').
+  rewrite HeT in Hnth2, E''.
   cbn [node_update node_ty node_attrs node_marks] in Eu, Eu2. unfold type_create in Eu, Eu2.
   destruct (is_text_ty s ty); [discriminate|]. destruct (is_text_ty s ty2); [discriminate|].
   destruct (compute_attrs (decls ty) (set_attr a attr value)) as [x1|] eqn:E1; [|discriminate]. cbn [bind] in Eu.
@@ -219,6 +221,25 @@ Proof.
   assert (Htok : tnorm (head_tok s ty a3 (set_from m2)) = tnorm (head_tok s ty a m)).
   { unfold head_tok. destruct (is_leaf_ty s ty); cbn [tnorm]; rewrite Hry, Hm3; reflexivity. }
   rewrite E'', Htok, E'. apply set_nth_back. exact Hnth.
+Qed.
+
+Theorem attr_step_undo pos attr value doc d' inv d'' :
+  V doc -> V d' ->
+  (forall n, node_at s (S (nsize doc)) doc pos = Ok (Some n) -> NodeNormal n) ->
+  apply s (SAttr pos attr value) doc = ROk d' ->
+  invert_step s (SAttr pos attr value) doc = Ok inv ->
+  apply s inv d' = ROk d'' ->
+  DT d'' = DT doc.
+Proof.
+  intros Hd Hd' Hn Ha Hi Hb. exact (attr_step_undo_on _ _ _ _ d' _ d' _ Hd Hn Ha Hi Hd' eq_refl Hb).
+Qed.
+
+(* a DocAttrStep does not touch the content at all *)
+Lemma doc_attr_step_tokens attr value doc d' : apply s (SDocAttr attr value) doc = ROk d' -> DT d' = DT doc.
+Proof.
+  intros Ha. cbn [apply] in Ha. unfold lift, type_create in Ha.
+  destruct (is_text_ty s (node_ty s doc)); [discriminate|].
+  destruct (compute_attrs _ _) as [a1|]; [|discriminate]. cbn [bind] in Ha. inversion Ha. reflexivity.
 Qed.
 
 End WithSchema.
